@@ -197,6 +197,12 @@ class C07(Prop):
             'stack_type': st.sampled_from([None, None, 'no_stack', 'stack', 'no_stack']),
             # unlimited in practice, cut inside the frame's own variables, or cut somewhere inside the watches
             'max_variables': st.one_of(st.just(1000), st.integers(1, 14), st.sampled_from([60, 150, 200, 230, 260, 300, 350, 420, 500])),
+            # class-forcing: the budget runs out somewhere inside a watch on a large structure, and a later watch
+            # reaches a part of that structure
+            'cut_in_watch': st.one_of(st.none(), st.none(), st.none(), st.tuples(
+                st.sampled_from([['NEST.v', 'NEST.v[9]'], ['NEST.v', 'NEST.v[0][0]'], ['NEST.v', 'NEST.v[0]'],
+                                 ['NEST.v[0]', 'NEST.v[0][0]'], ['NEST.v', 'a', 'NEST.v[9]']]),
+                st.sampled_from([60, 150, 200, 230, 260, 300, 350, 420, 500])).map(list)),
             'me': st.booleans(),
             'capture': st.booleans(),
             # the paused frame is the outermost one (nothing below it) and holds its own locals() in a local
@@ -233,6 +239,9 @@ class C07(Prop):
     def run_case(self, recipe):
         out = Outcome()
         lab.reset_world()
+        if recipe.get('cut_in_watch'):
+            recipe = dict(recipe, watches=list(recipe['cut_in_watch'][0]), max_variables=recipe['cut_in_watch'][1])
+            out.cls('budget_ends_inside_a_watch_on_a_large_structure')
         vals = values.build(recipe['values'])
         n = len(vals)
         i0, i1, i2 = [i % n for i in recipe['idx']]
